@@ -15,22 +15,33 @@ SPEC = {
              "references, so the oracle never parses a Go template): 1-3 csv / json / variables sources with 1-5 rows (header line, "
              "delimiter, wrapped json array, numeric cells, values with spaces/quotes/commas), 1-3 weighted scenarios (weights 1-6, "
              "min_waiting_time 0-5 ms) each starting with a request of its own, 0-3 shared requests; request lists with name, name(n), "
-             "name(n,ms), sleep(ms) (n <= 3, pauses <= 3 ms, <= 8 executed steps); URI / header / body templates over source "
+             "name(n,ms), sleep(ms) (n <= 3, pauses <= 3 ms, <= 8 executed steps), in three scenarios of ten a request is listed a "
+             "second time with another pause argument or none (a pause belongs to the occurrence it is written at); about one "
+             "request in five has no postprocessors at all; URI / header / body templates over source "
              "rows, variables, own and earlier steps' preprocessor variables and values captured by var/jsonpath, var/header (with "
              "lower/upper/substr/replace) and var/xpath of earlier steps, incl. references to steps that did not run; preprocessors with "
              "[next], [last], [i], variables and earlier steps' values; assert/response (status, body, header). The description is "
              "rendered to YAML (internal/scengen) and run by the real http/scenario provider + gun + engine (pool built by "
              "config.DecodeAndValidate, recording aggregator) against the in-process recording target, which answers the n-th request "
-             "with values unique to n and the generated faults (non-200 status, connection closed, body without the asserted marker, "
+             "with values unique to n and the generated faults (non-200 status, connection closed without a response, connection dropped "
+             "in the middle of the body after status line, headers and the Content-Length of the whole body were sent - both kinds "
+             "of transport failure also aimed at steps without postprocessors -, body without the asserted marker, "
              "missing asserted header, captured JSON object turned into a string so that a later template cannot be executed). "
              "TestScenarioExecution: one instance, whole multiples of sum(w)/gcd shots; the reference interpreter is replayed against "
-             "the request log and the sample stream step by step. TestNextAcrossInstances: 1-4 instances, programs whose first step "
+             "the request log and the sample stream step by step; the engine's provider is wrapped by a pass-through recorder and the "
+             "scenario ammo of every Acquire (exported fields of the http/scenario gun's ammo: step names, Sleep per step, "
+             "MinWaitingTime) is compared with the interpreter's expansion of the request list. TestNextAcrossInstances: 1-4 instances, programs whose first step "
              "takes one [next] row per invocation, target answers as a function of the request; multisets of rendered requests and of "
              "samples are compared. Non-trivial = a captured value of an earlier step was rendered into a later request, or a "
              "multiplicity != 1, or a step failed, or >= 2 weighted scenarios (TestScenarioExecution); [next] used with >= 2 instances "
              "or wrapped around the source (TestNextAcrossInstances); distinct = hash of the case."),
     "floors": {"TestScenarioExecution/flow_captured_value": 0.15, "TestScenarioExecution/multiplicity": 0.3,
                "TestScenarioExecution/multiplicity_with_sleep": 0.08, "TestScenarioExecution/pause_checked": 0.2,
+               "TestScenarioExecution/ammo_pauses_checked": 0.95,
+               "TestScenarioExecution/repeated_request_pause_argument_differs": 0.2,
+               "TestScenarioExecution/fail_transport_body_cut": 0.08,
+               "TestScenarioExecution/fail_transport_step_without_postprocessors": 0.06,
+               "TestScenarioExecution/fail_body_cut_step_without_postprocessors": 0.04,
                "TestScenarioExecution/fail_assert": 0.1, "TestScenarioExecution/fail_transport": 0.05,
                "TestScenarioExecution/fail_template_by_captured_value": 0.02, "TestScenarioExecution/fail_at_middle_step": 0.08,
                "TestScenarioExecution/scenarios_ge_2": 0.25, "TestScenarioExecution/weights_gcd_gt_1": 0.03,
@@ -45,15 +56,19 @@ SPEC = {
         "text": ("Per invocation the target's request log must be the expanded step list (multiplicities, order) cut after the first "
                  "failing step, every URI / header / body must equal the interpreter's rendering from source rows and from values set "
                  "earlier in the same invocation, every executed step must leave exactly one sample (status of the response, or marked "
-                 "failed for the failing step: failed assertion, closed connection, template or preprocessor that cannot be evaluated), "
+                 "failed for the failing step: failed assertion, closed connection, response body cut short by a dropped connection - with "
+                 "or without postprocessors on the step -, template or preprocessor that cannot be evaluated), "
                  "nothing may be sent after a failed step, pauses (name(n,ms), sleep(ms), min_waiting_time) must separate the "
-                 "recorded arrival times by at least their length, over whole cycles scenario i must run w_i/gcd times per cycle, and "
+                 "recorded arrival times by at least their length, the scenario handed to the gun for an invocation must carry after every "
+                 "step exactly the pause its own occurrence in the list states (none where none is stated), over whole cycles scenario i must run w_i/gcd times per cycle, and "
                  "[next] must hand out rows 0,1,2,... mod R per scenario and path (exact sequence with one instance, multiset with 1-4)."),
         "note": ("The html templater, [rand], the randomisation functions, assert/response `size`, HCL input (C16) and the http2 gun "
                  "are not exercised. substr is only generated in the forms substr(from) and substr(0,n), where the documentation "
                  "(from, length) and the implementation (from, end) agree. A [next] path is confined to one scenario and used at most "
                  "once per preprocessor (the documentation does not settle sharing across scenarios or evaluation order inside one "
-                 "mapping). Pauses are only bounded from below. Invocations are told apart by a first step unique to each scenario."),
+                 "mapping). At the target pauses are only bounded from below by the clock; that no pause is longer than stated (or present "
+                 "where none is stated) is judged on the Sleep / MinWaitingTime fields of the ammo the provider hands to the gun, not by "
+                 "timing. A body cut short is produced by closing the connection, not by a client-side timeout. Invocations are told apart by a first step unique to each scenario."),
     },
     "assumptions": [
         "a missing template key renders as `<no value>` (standard text/template behaviour, which the documentation refers to)",
